@@ -132,6 +132,22 @@ class Ctx:
 
     def direction(self):
         r = self.rng
+        if self.deg and not self.dirs and len(self.points) >= 2 and r.chance(0.4):
+            # a normal / direction exactly perpendicular to the segment spanned by the last two points (e.g. a plane
+            # parallel to a segment), or parallel to it
+            e = self.points[-1] - self.points[-2]
+            ne = float(np.linalg.norm(e))
+            if ne > 0:
+                if r.chance(0.7):
+                    o = np.cross(e, np.array(r.unit()))
+                    if np.linalg.norm(o) > 1e-9 * ne:
+                        out = o / np.linalg.norm(o)
+                        self.dirs.append(out)
+                        return out
+                else:
+                    out = e / ne
+                    self.dirs.append(out)
+                    return out
         if self.deg and self.dirs and r.chance(0.6):
             d = self.dirs[-1]
             c = r.random()
